@@ -15,6 +15,7 @@ AKok   == {<<"ok", "", "">>}
 AKvals == {<<"ok", "", "">>, <<"nil", "", "">>, <<"mix", "", "">>}
 AKerr  == {<<"ok", "", "">>, <<"err", "LOADING", "">>}
 AKredir == {<<"ok", "", "">>, <<"moved", "", "n1">>, <<"ask", "", "n2">>, <<"moved", "", "nx">>}
+MR1x2 == (c1 :> 2)
 MR1x3 == (c1 :> 3)
 MR1x4 == (c1 :> 4)
 MR2x2 == (c1 :> 2) @@ (c2 :> 2)
